@@ -2,7 +2,7 @@
 * Unless explicitly stated otherwise all files in this repository are licensed under the Apache-2.0 License.
 * This product includes software developed at Datadog (https://www.datadoghq.com/). Copyright 2022 Datadog, Inc.
 **/
-use swc_common::Spanned;
+use swc_common::{util::take::Take, Spanned};
 use swc_ecma_ast::*;
 
 use crate::visitor::{
@@ -30,6 +30,13 @@ impl TemplateTransform {
 
             tpl.exprs.iter_mut().for_each(|tpl_expr| {
                 let span = tpl_expr.span();
+
+                // `${a, b}` is valid but a bare sequence cannot be the right side of the
+                // assignment it is hoisted into: keep it parenthesised
+                if tpl_expr.is_seq() {
+                    let seq = tpl_expr.take();
+                    **tpl_expr = Expr::Paren(ParenExpr { span, expr: seq });
+                }
 
                 DefaultOperandHandler::replace_expressions_in_expr(
                     tpl_expr,
